@@ -1,6 +1,7 @@
 package props
 
 import (
+	"strings"
 	"go/token"
 	"go/types"
 
@@ -33,6 +34,7 @@ func runC04(c *Ctx) {
 	rulePacketDeadline(c, p, "C04.deadline")
 	ruleDeadlineDisarmed(c, p, "C04.disarm")
 	ruleCodeWidth(c, p, "C04.codewidth")
+	ruleWhoCloses(c, p, "C04.who-closes")
 	_ = cfg
 	c.R.Assumptions = append(c.R.Assumptions,
 		"errgroup cancels the shared context when a goroutine returns a non-nil error (x/sync contract)",
@@ -515,6 +517,38 @@ func ruleWatch(c *Ctx, p *core.Program, r *doRoles, prop string) {
 			c.R.Bad(rule, core.FuncName(cq), cfg, p.Pos(w[0].At.Pos()), "an exit of cancelQuery is reachable without Close()", p.TrailString(w[0])...)
 			return
 		}
+		// the Cancel write is bounded: the context it runs under carries a deadline of its own
+		// (flushBuf arms a write deadline only from the context's deadline; Background would block forever
+		// behind a sender that is stuck in Write, and Close is never reached)
+		nCtx := 0
+		for _, call := range core.Calls(cq) {
+			sf := core.StaticFn(call)
+			if sf == nil || pkgOf(sf) == nil || pkgOf(sf).Path() != core.PkgCh {
+				continue
+			}
+			for _, a := range call.Common().Args {
+				if !core.IsNamed(a.Type(), "context", "Context") {
+					continue
+				}
+				nCtx++
+				bounded := false
+				if ex, ok := a.(*ssa.Extract); ok && ex.Index == 0 {
+					if wc, ok := ex.Tuple.(*ssa.Call); ok {
+						if f := core.CalleeFunc(wc); f != nil && (core.IsFunc(f, "context", "WithTimeout") || core.IsFunc(f, "context", "WithDeadline")) {
+							bounded = true
+						}
+					}
+				}
+				if bounded {
+					c.R.Ok(rule, core.CallKey(cq, call)+"/bounded", cfg, p.Pos(call.Pos()), "the Cancel packet is written under a context with its own deadline")
+				} else {
+					c.R.Bad(rule, core.CallKey(cq, call)+"/bounded", cfg, p.Pos(call.Pos()), "the Cancel packet is written under a context without a deadline of its own: when the peer does not read (the sender is already stuck in Write) the write blocks forever, Close is never reached and Do never returns")
+				}
+			}
+		}
+		if nCtx == 0 {
+			c.R.Unk(rule, core.FuncName(cq)+"/bounded", cfg, p.Pos(cq.Pos()), "no context-taking write found in cancelQuery")
+		}
 		// Close itself must close the conn on its first invocation
 		cl := p.Method(core.PkgCh, "Client", "Close")
 		if cl != nil {
@@ -818,7 +852,7 @@ func ruleCloseMarks(c *Ctx, p *core.Program, rule string) {
 
 // ruleNoAsyncConn (C04.async): nothing manipulates the connection from a timer / context callback.
 func ruleNoAsyncConn(c *Ctx, p *core.Program, rule string) {
-	c.R.Rule(rule, "who-may-touch the transport asynchronously: in package ch no callback registered with context.AfterFunc / time.AfterFunc (or started by such a callback) calls a method of the connection (deadlines, Write, Close): inside Do the query context is the errgroup's, which is also cancelled by the one failure that keeps the client open (a server exception), so a callback that expires the write deadline on cancellation cuts the sender's write in the middle of a packet and leaves the client open at no packet boundary; cancellation is the cancel-watch goroutine's job (C04.watch-*)")
+	c.R.Rule(rule, "who-may-touch the transport asynchronously: in package ch no callback registered with context.AfterFunc / time.AfterFunc (or started by such a callback) calls a method of the connection (deadlines, Write, Close) - except a timer that only closes the connection, armed inside a function that closes the client on every path (the bound cancelQuery puts on its own write): inside Do the query context is the errgroup's, which is also cancelled by the one failure that keeps the client open (a server exception), so a callback that expires the write deadline on cancellation cuts the sender's write in the middle of a packet and leaves the client open at no packet boundary; cancellation is the cancel-watch goroutine's job (C04.watch-*)")
 	cfg := p.Cfg.Name
 	n, bad := 0, false
 	for _, fn := range p.Funcs() {
@@ -834,13 +868,28 @@ func ruleNoAsyncConn(c *Ctx, p *core.Program, rule string) {
 			args := call.Common().Args
 			cb := core.ClosureArg(call, len(args)-1)
 			touches := cb == nil
+			onlyClose := cb != nil
 			if cb != nil {
 				for g := range core.StaticReach(cb, 3) {
 					for _, cc := range core.Calls(g) {
 						if cm := cc.Common(); cm.IsInvoke() && core.IsNamed(cm.Value.Type(), "net", "Conn") {
 							touches = true
+							if cm.Method.Name() != "Close" {
+								onlyClose = false
+							}
 						}
 					}
+				}
+			}
+			// a timer whose only effect is closing the connection, armed by a function that closes the
+			// client on every path anyway (cancelQuery's bound on its own write), leaves no open client behind
+			if touches && onlyClose && f.Pkg().Path() == "time" {
+				always := len(core.ReachAvoiding(core.Entry(fn), core.IsExit, func(in ssa.Instruction) bool {
+					return core.IsCallOf(in, isClientMethod("Close"))
+				}, nil)) == 0
+				if always {
+					c.R.Ok(rule, core.CallKey(fn, call), cfg, p.Pos(call.Pos()), "timer that only closes the connection, in a function that closes the client on every path")
+					continue
 				}
 			}
 			if touches {
@@ -852,4 +901,121 @@ func ruleNoAsyncConn(c *Ctx, p *core.Program, rule string) {
 	if !bad {
 		c.R.Ok(rule, "ch", cfg, "", sprintf("%d AfterFunc registrations, none touching the connection", n))
 	}
+}
+
+// ---- who-closes (C11 / C04): the client's transport is closed only through Client.Close
+func ruleWhoCloses(c *Ctx, p *core.Program, rule string) {
+	c.R.Rule(rule, "who-may-call: the transport held in Client.conn is closed only by (*Client).Close, which marks the client closed - IsClosed is what the pool's Release and the entry guards of Do / Ping look at. A direct conn.Close() elsewhere leaves a client that reports itself open over a dead socket, and the pool hands it to the next holder. Allowed besides Close itself: the handshake (a failed handshake never yields a client, C13.fail) and a timer armed by a function that calls Client.Close on every path (the bound on cancelQuery's own write)")
+	cfg := p.Cfg.Name
+	n := 0
+	hs := p.Method(core.PkgCh, "Client", "handshake")
+	cl := p.Method(core.PkgCh, "Client", "Close")
+	for _, fn := range p.Funcs() {
+		pk := pkgOf(fn)
+		if pk == nil || pk.Path() != core.PkgCh || isServerSide(fn) || fn.Blocks == nil {
+			continue
+		}
+		for _, call := range core.Calls(fn) {
+			cc := call.Common()
+			if !cc.IsInvoke() || cc.Method.Name() != "Close" || !core.IsNamed(cc.Value.Type(), "net", "Conn") {
+				continue
+			}
+			if !strings.HasSuffix(core.FieldOrigin(cc.Value, 0), "Client.conn") {
+				continue // a raw connection that is not (yet) a client's: Dial's failure path
+			}
+			n++
+			key := core.CallKey(fn, call)
+			root := fn
+			for root.Parent() != nil {
+				root = root.Parent()
+			}
+			switch {
+			case fn == cl:
+				c.R.Ok(rule, key, cfg, p.Pos(call.Pos()), "Client.Close itself")
+			case root == hs || onlyFromHandshake(p, root, hs):
+				c.R.Ok(rule, key, cfg, p.Pos(call.Pos()), "handshake watchdog: a failed handshake yields no client")
+			case fn.Parent() != nil && len(core.ReachAvoiding(core.Entry(fn.Parent()), core.IsExit, func(in ssa.Instruction) bool {
+				return core.IsCallOf(in, isClientMethod("Close"))
+			}, nil)) == 0:
+				c.R.Ok(rule, key, cfg, p.Pos(call.Pos()), "closure of a function that calls Client.Close on every path")
+			case timerOnlyUse(p, fn):
+				c.R.Ok(rule, key, cfg, p.Pos(call.Pos()), "used only as the function of a timer armed by a function that calls Client.Close on every path")
+			default:
+				c.R.Bad(rule, key, cfg, p.Pos(call.Pos()), "the client's transport is closed without marking the client closed: IsClosed stays false, so a pool returns the dead connection to its idle set and every later holder gets it")
+			}
+		}
+	}
+	c.R.Count("closes of Client.conn["+cfg+"]", n)
+	c.R.Floor(rule, cfg, n, 2)
+}
+
+// onlyFromHandshake: fn is a helper whose only static callers in package ch are the handshake and its closures.
+func onlyFromHandshake(p *core.Program, fn, hs *ssa.Function) bool {
+	if hs == nil {
+		return false
+	}
+	n := 0
+	for _, g := range p.Funcs() {
+		if pkgOf(g) == nil || pkgOf(g).Path() != core.PkgCh {
+			continue
+		}
+		for _, call := range core.Calls(g) {
+			if core.StaticFn(call) != fn {
+				continue
+			}
+			n++
+			root := g
+			for root.Parent() != nil {
+				root = root.Parent()
+			}
+			if root != hs {
+				return false
+			}
+		}
+	}
+	return n > 0
+}
+
+// timerOnlyUse: fn (a client method that closes the transport) is never called directly; its only uses are
+// as the function value of time.AfterFunc inside functions that call Client.Close on every path.
+func timerOnlyUse(p *core.Program, fn *ssa.Function) bool {
+	uses := 0
+	for _, g := range p.Funcs() {
+		if pkgOf(g) == nil || pkgOf(g).Path() != core.PkgCh || g.Blocks == nil {
+			continue
+		}
+		for _, call := range core.Calls(g) {
+			if core.StaticFn(call) == fn {
+				// a bound-method wrapper calling it is the method value itself
+				if g.Synthetic != "" {
+					continue
+				}
+				return false
+			}
+			f := core.CalleeFunc(call)
+			if f == nil || !core.IsFunc(f, "time", "AfterFunc") {
+				continue
+			}
+			cb := core.ClosureArg(call, len(call.Common().Args)-1)
+			if cb == nil {
+				continue
+			}
+			reaches := cb == fn
+			for h := range core.StaticReach(cb, 1) {
+				if h == fn {
+					reaches = true
+				}
+			}
+			if !reaches {
+				continue
+			}
+			uses++
+			if len(core.ReachAvoiding(core.Entry(g), core.IsExit, func(in ssa.Instruction) bool {
+				return core.IsCallOf(in, isClientMethod("Close"))
+			}, nil)) > 0 {
+				return false
+			}
+		}
+	}
+	return uses > 0
 }
